@@ -468,3 +468,325 @@ Qed.
 
 Theorem subb_iff_sub : forall a b, subb a b = true <-> sub a b.
 Proof. intros; split; [apply subb_sound|apply subb_complete]. Qed.
+
+(* ====================================================================================== *)
+(* compat agrees with the reference (sources without TypeVar)                                *)
+(* ====================================================================================== *)
+
+(* ---------- inversion of the side conditions ---------- *)
+Lemma wf_inv_union l : wf (TUnion l) = true -> l <> [] /\ (forall x, In x l -> wf x = true).
+Proof.
+  simpl. intros H. apply andb_prop in H. destruct H as [H1 H2]. split.
+  - destruct l; [discriminate|congruence].
+  - apply forallb_forall. exact H2.
+Qed.
+Lemma wf_inv_gen o l : wf (TGen o l) = true -> l <> [] /\ (forall x, In x l -> wf x = true).
+Proof.
+  simpl. intros H. apply andb_prop in H. destruct H as [H1 H2]. split.
+  - destruct l; [discriminate|congruence].
+  - apply forallb_forall. exact H2.
+Qed.
+Lemma wf_inv_annot p m : wf (TAnnot p m) = true -> is_annot_like p = false /\ wf p = true.
+Proof. simpl. intros H. apply andb_prop in H. destruct H as [H1 H2]. split; [destruct (is_annot_like p); [discriminate|reflexivity]|exact H2]. Qed.
+Lemma wf_inv_array e : wf (TArray e) = true -> wf e = true.
+Proof. auto. Qed.
+Lemma wf_inv_var n bd cs : wf (TVar n bd cs) = true ->
+  (forall x, bd = Some x -> wf x = true) /\ (forall c, In c cs -> wf c = true).
+Proof.
+  simpl. intros H. apply andb_prop in H. destruct H as [H1 H2]. split.
+  - intros x ->. exact H1.
+  - apply forallb_forall. exact H2.
+Qed.
+Lemma notv_inv_union l : notv (TUnion l) = true -> forall x, In x l -> notv x = true.
+Proof. simpl. intros H. apply forallb_forall. exact H. Qed.
+Lemma notv_inv_gen o l : notv (TGen o l) = true -> forall x, In x l -> notv x = true.
+Proof. simpl. intros H. apply forallb_forall. exact H. Qed.
+
+Lemma cls_eqb_le c d : cls_eqb c d = true -> cls_le c d = true.
+Proof. destruct c, d; simpl; auto. Qed.
+Lemma origin_eqb_le c d : origin_eqb c d = true -> origin_le c d = true.
+Proof. destruct c, d; simpl; auto. Qed.
+
+Lemma existsb_const_true {A} (l : list A) : l <> [] -> existsb (fun _ => true) l = true.
+Proof. destruct l; [congruence|reflexivity]. Qed.
+
+(* Python's == implies the reference relation (for sources without TypeVar: TypeVars compare by identity) *)
+Lemma ty_eqb_go_Forall2 : forall l1 l2,
+  (fix go (l1 l2 : list ty) {struct l1} : bool :=
+     match l1 with
+     | [] => match l2 with [] => true | _ :: _ => false end
+     | x :: r1 => match l2 with [] => false | y :: r2 => ty_eqb x y && go r1 r2 end
+     end) l1 l2 = true -> Forall2 (fun x y => ty_eqb x y = true) l1 l2.
+Proof.
+  induction l1 as [|x l1 IH]; intros [|y l2] H; try discriminate; constructor.
+  - apply andb_prop in H. tauto.
+  - apply IH. apply andb_prop in H. tauto.
+Qed.
+
+Lemma subb_of_eqb : forall a b, notv a = true -> ty_eqb a b = true -> subb a b = true.
+Proof.
+  intros a b; pattern a, b; apply pair_size_ind; clear a b; intros a b IH Hv He.
+  destruct a as [c| | |l|o args|o|p m|e|n bd cs|u]; destruct b as [c'| | |l'|o' args'|o'|p' m'|e'|n' bd' cs'|u'];
+    try discriminate; try (apply subb_top; reflexivity).
+  - rewrite subb_atomic by reflexivity. simpl. apply cls_eqb_le. exact He.
+  - rewrite subb_src_union. apply forallb_forall. intros x Hx.
+    simpl in He. apply andb_prop in He. destruct He as [He _]. rewrite forallb_forall in He.
+    specialize (He x Hx). apply existsb_exists in He. destruct He as [y [Hy Hxy]].
+    apply (subb_union_r x y l' Hy). apply IH; [sz| |exact Hxy]. eapply notv_inv_union; eauto.
+  - simpl in He. apply andb_prop in He. destruct He as [Ho Hg]. apply ty_eqb_go_Forall2 in Hg.
+    rewrite subb_atomic by reflexivity. cbn [target_sub head_sub].
+    destruct (Forall2_forallb2 subb _ _ _ Hg) as [E1 E2].
+    { intros x y Hx Hy Hxy. apply IH; [sz| |exact Hxy]. eapply notv_inv_gen; eauto. }
+    rewrite E1, E2, Nat.eqb_refl, (origin_eqb_le _ _ Ho). reflexivity.
+  - rewrite subb_atomic by reflexivity. simpl. apply origin_eqb_le. exact He.
+  - simpl in He. apply andb_prop in He. destruct He as [He _].
+    rewrite subb_src_annot. apply subb_annot_r. apply IH; [sz|exact Hv|exact He].
+  - rewrite subb_atomic by reflexivity. cbn [target_sub head_sub]. apply IH; [sz|exact Hv|exact He].
+Qed.
+
+Lemma check_false_inv a b : check_identical_or_any a b = false ->
+  is_unres a = false /\ is_unres b = false /\ ty_eqb a b = false /\ is_any b = false /\ is_noann a = false /\ is_noann b = false.
+Proof.
+  unfold check_identical_or_any. destruct (is_unres a), (is_unres b); simpl; try discriminate.
+  destruct (ty_eqb a b), (is_any b), (is_noann a), (is_noann b); simpl; try discriminate. intros _; repeat split; reflexivity.
+Qed.
+
+Lemma check_true_subb a b : notv a = true -> check_identical_or_any a b = true -> subb a b = true.
+Proof.
+  unfold check_identical_or_any. intros Hv H.
+  destruct (is_unres a) eqn:E1. { destruct a; try discriminate. apply subb_unres_l. }
+  destruct (is_unres b) eqn:E2. { apply subb_top. unfold is_top. rewrite E2, !orb_true_r. reflexivity. }
+  simpl in H. destruct (ty_eqb a b) eqn:E3. { apply subb_of_eqb; auto. }
+  destruct (is_any b) eqn:E4. { apply subb_top. unfold is_top. rewrite E4. reflexivity. }
+  destruct (is_noann a) eqn:E5. { destruct a; try discriminate. apply subb_noann_l. }
+  simpl in H. apply subb_top. unfold is_top. rewrite H, orb_true_r. reflexivity.
+Qed.
+
+Lemma typevar_compatible_target r a n bd cs :
+  typevar_compatible r a (TVar n bd cs) = Some (target_sub r a (TVar n bd cs)).
+Proof.
+  unfold typevar_compatible, target_sub.
+  destruct bd as [x|]; destruct cs as [|c0 cs]; simpl; try reflexivity.
+  - rewrite orb_false_r. reflexivity.
+  - destruct (r a c0 || existsb (fun c => r a c) cs); [rewrite orb_true_r|rewrite orb_false_r]; reflexivity.
+  - destruct (r a c0 || existsb (fun c => r a c) cs); reflexivity.
+Qed.
+
+Lemma target_var_ext r1 r2 a n bd cs :
+  (forall y, bd = Some y \/ In y cs -> r1 a y = r2 a y) ->
+  target_sub r1 a (TVar n bd cs) = target_sub r2 a (TVar n bd cs).
+Proof.
+  intros H. unfold target_sub.
+  rewrite (existsb_ext_in (fun y => r1 a y) (fun y => r2 a y) cs) by (intros; apply H; auto).
+  destruct bd as [x|]; [rewrite (H x) by auto|]; reflexivity.
+Qed.
+
+Lemma size_var_part n bd cs y : bd = Some y \/ In y cs -> size y < size (TVar n bd cs).
+Proof. intros [->|H]; [simpl; lia|sz]. Qed.
+
+Lemma wf_var_part n bd cs y : wf (TVar n bd cs) = true -> bd = Some y \/ In y cs -> wf y = true.
+Proof. intros W H. apply wf_inv_var in W. destruct W as [W1 W2]. destruct H; auto. Qed.
+
+Ltac bcase := repeat match goal with |- context [if ?c then _ else _] => destruct c end; try reflexivity.
+
+Ltac side :=
+  first
+    [ assumption | reflexivity
+    | match goal with
+      | W : wf (TUnion _) = true |- wf _ = true => apply (proj2 (wf_inv_union _ W)); assumption
+      | W : wf (TGen _ _) = true |- wf _ = true => apply (proj2 (wf_inv_gen _ _ W)); assumption
+      | W : wf (TAnnot _ _) = true |- wf _ = true => apply (proj2 (wf_inv_annot _ _ W))
+      | W : wf (TArray _) = true |- wf _ = true => exact W
+      | V : notv (TUnion _) = true |- notv _ = true => apply (notv_inv_union _ V); assumption
+      | V : notv (TGen _ _) = true |- notv _ = true => apply (notv_inv_gen _ _ V); assumption
+      | V : notv (TAnnot _ _) = true |- notv _ = true => exact V
+      | V : notv (TArray _) = true |- notv _ = true => exact V
+      end ].
+
+Theorem compat_eq_subb : forall a b, wf a = true -> wf b = true -> notv a = true -> compat a b = subb a b.
+Proof.
+  intros a b; pattern a, b; apply pair_size_ind; clear a b; intros a b IH Wa Wb Va.
+  rewrite compat_unfold. unfold step.
+  destruct (is_var a) eqn:Hvar. { destruct a; discriminate. }
+  destruct (check_identical_or_any a b) eqn:Hc. { symmetry. apply check_true_subb; auto. }
+  apply check_false_inv in Hc. destruct Hc as (Ua & Ub & Eab & Ab & Na & Nb).
+  assert (Tb : is_top b = false). { unfold is_top. rewrite Ab, Nb, Ub. reflexivity. }
+  (* the TypeVar target, for sources that the union handler leaves alone *)
+  assert (TV : forall n bd cs, b = TVar n bd cs -> atomic a = true ->
+               target_sub compat a b = target_sub subb a b).
+  { intros n bd cs -> _. apply target_var_ext. intros y Hy. apply IH; auto.
+    - pose proof (size_var_part n bd cs y Hy). lia.
+    - eapply wf_var_part; eauto. }
+  destruct a as [c| | |l|o args|o|p m|e|n bd cs|u]; try discriminate.
+  - (* class *)
+    rewrite (subb_atomic (TCls c) b eq_refl Tb).
+    destruct b as [c'| | |l'|o' args'|o'|p' m'|e'|n' bd' cs'|u']; try discriminate.
+    + simpl. bcase.
+    + simpl. apply existsb_ext_in. intros y Hy. apply IH; [sz|side|side|side].
+    + reflexivity.
+    + reflexivity.
+    + simpl. apply IH; [sz|side|side|side].
+    + simpl. rewrite IH by (first [sz|side]). destruct c; reflexivity.
+    + cbn [handle_union]. rewrite typevar_compatible_target. eapply TV; eauto.
+  - (* Any *)
+    rewrite (subb_atomic TAny b eq_refl Tb).
+    destruct b as [c'| | |l'|o' args'|o'|p' m'|e'|n' bd' cs'|u']; try discriminate.
+    + reflexivity.
+    + simpl. apply existsb_ext_in. intros y Hy. apply IH; [sz|side|side|side].
+    + reflexivity.
+    + reflexivity.
+    + simpl. apply IH; [sz|side|side|side].
+    + simpl. rewrite IH by (first [sz|side]). reflexivity.
+    + cbn [handle_union]. rewrite typevar_compatible_target. eapply TV; eauto.
+  - (* union source *)
+    rewrite subb_src_union. simpl. apply forallb_ext_in. intros x Hx. apply IH; [sz|side|side|side].
+  - (* parametrised generic *)
+    rewrite (subb_atomic (TGen o args) b eq_refl Tb).
+    destruct (wf_inv_gen _ _ Wa) as [Ne Wargs]. pose proof (notv_inv_gen _ _ Va) as Vargs.
+    destruct b as [c'| | |l'|o' args'|o'|p' m'|e'|n' bd' cs'|u']; try discriminate.
+    + reflexivity.
+    + simpl. apply existsb_ext_in. intros y Hy. apply IH; [sz|side|side|side].
+    + destruct (wf_inv_gen _ _ Wb) as [Ne' Wargs'].
+      cbn [handle_union typevar_compatible handle_generic annot_parts origins_compatible args_of target_sub head_sub].
+      unfold compare_args.
+      rewrite (forallb2_ext_in compat subb args args') by (intros x y Hx Hy; apply IH; [sz|side|side|side]).
+      destruct args; [congruence|]. destruct args'; [congruence|]. cbn [is_nil orb].
+      destruct (origin_le o o'); [|reflexivity]. cbn [andb].
+      destruct (length (t :: args) =? length (t0 :: args')); reflexivity.
+    + simpl. unfold compare_args. simpl. rewrite ?orb_true_r. bcase.
+    + simpl. apply IH; [sz|side|side|side].
+    + cbn [handle_union typevar_compatible handle_generic annot_parts target_sub head_sub].
+      apply IH; [sz|side|side|side].
+    + cbn [handle_union]. rewrite typevar_compatible_target. eapply TV; eauto.
+  - (* bare generic *)
+    rewrite (subb_atomic (TBare o) b eq_refl Tb).
+    destruct b as [c'| | |l'|o' args'|o'|p' m'|e'|n' bd' cs'|u']; try discriminate.
+    + reflexivity.
+    + simpl. apply existsb_ext_in. intros y Hy. apply IH; [sz|side|side|side].
+    + simpl. unfold compare_args. simpl. rewrite ?orb_true_r. bcase.
+    + simpl. unfold compare_args. simpl. rewrite ?orb_true_r. bcase.
+    + simpl. apply IH; [sz|side|side|side].
+    + simpl. rewrite IH by (first [sz|side]). destruct o; reflexivity.
+    + cbn [handle_union]. rewrite typevar_compatible_target. eapply TV; eauto.
+  - (* Annotated source *)
+    rewrite subb_src_annot.
+    destruct (wf_inv_annot _ _ Wa) as [Lp Wp]. assert (Vp : notv p = true) by exact Va.
+    destruct (is_union p) eqn:Hnu.
+    { (* an annotated union is split like a union *)
+      destruct p as [c| | |lp|o args|o|p0 m0|e0|n0 bd0 cs0|u]; try discriminate.
+      rewrite subb_src_union. simpl. apply forallb_ext_in. intros x Hx. apply IH; [sz|side|side|side]. }
+    (* the other primary types: not decomposed by the reference, or unknown *)
+    assert (Hp : (forall y, is_top y = false -> subb p y = target_sub subb p y)
+                 /\ (forall e', target_sub subb p (TArray e') = subb p nd_obj)
+                 \/ (forall y, subb p y = true)).
+    { destruct p as [c| | |lp|o args|o|p0 m0|e0|n0 bd0 cs0|u]; try discriminate.
+      - left; split; [intros y Hy; apply subb_atomic; [reflexivity|exact Hy]|]. intros e'. destruct c; reflexivity.
+      - left; split; [intros y Hy; apply subb_atomic; [reflexivity|exact Hy]|]. reflexivity.
+      - right. apply subb_noann_l.
+      - left; split; [intros y Hy; apply subb_atomic; [reflexivity|exact Hy]|]. reflexivity.
+      - left; split; [intros y Hy; apply subb_atomic; [reflexivity|exact Hy]|]. intros e'. destruct o; reflexivity.
+      - right. apply subb_unres_l. }
+    assert (HU : handle_union compat (TAnnot p m) b =
+                 match b with TUnion l => Some (existsb (fun t => compat (TAnnot p m) t) l) | _ => None end).
+    { destruct p; try discriminate; reflexivity. }
+    rewrite HU. clear HU.
+    destruct b as [c'| | |l'|o' args'|o'|p' m'|e'|n' bd' cs'|u']; try discriminate.
+    + cbn [typevar_compatible handle_generic annot_parts]. apply IH; [sz|side|side|side].
+    + rewrite (existsb_ext_in _ (fun t => subb p t)) by
+        (intros y Hy; rewrite IH by (first [sz|side]); apply subb_src_annot).
+      destruct Hp as [[Hp2 _]|Hp].
+      * rewrite Hp2 by reflexivity. reflexivity.
+      * rewrite Hp. rewrite (existsb_ext_in _ (fun _ => true)) by (intros y Hy; apply Hp).
+        apply existsb_const_true. apply (proj1 (wf_inv_union _ Wb)).
+    + cbn [typevar_compatible handle_generic annot_parts]. apply IH; [sz|side|side|side].
+    + cbn [typevar_compatible handle_generic annot_parts]. apply IH; [sz|side|side|side].
+    + cbn [typevar_compatible handle_generic annot_parts compare_annotated].
+      rewrite IH by (first [sz|side]).
+      destruct Hp as [[Hp2 _]|Hp].
+      * rewrite (Hp2 (TAnnot p' m')) by reflexivity. cbn [target_sub]. destruct (subb p p'); reflexivity.
+      * rewrite !Hp. reflexivity.
+    + cbn [typevar_compatible handle_generic annot_parts compare_annotated].
+      rewrite IH by (first [sz|side]).
+      destruct Hp as [[Hp2 Hp3]|Hp].
+      * rewrite (Hp2 (TArray e')) by reflexivity. rewrite Hp3. destruct (subb p nd_obj); reflexivity.
+      * rewrite !Hp. reflexivity.
+    + rewrite typevar_compatible_target.
+      rewrite (target_var_ext compat (fun _ y => subb p y) _ n' bd' cs').
+      2: { intros y Hy. rewrite IH.
+           - apply subb_src_annot.
+           - pose proof (size_var_part n' bd' cs' y Hy). simpl in *. lia.
+           - exact Wa.
+           - eapply wf_var_part; eauto.
+           - exact Va. }
+      destruct Hp as [[Hp2 _]|Hp].
+      * rewrite (Hp2 (TVar n' bd' cs')) by reflexivity. reflexivity.
+      * rewrite Hp. unfold target_sub. destruct bd' as [x|]; [rewrite Hp; reflexivity|].
+        destruct cs' as [|c0 cs']; [reflexivity|]. simpl. rewrite Hp. reflexivity.
+  - (* Array source *)
+    rewrite (subb_atomic (TArray e) b eq_refl Tb).
+    destruct b as [c'| | |l'|o' args'|o'|p' m'|e'|n' bd' cs'|u']; try discriminate.
+    + simpl. rewrite IH by (first [sz|side]). destruct c'; reflexivity.
+    + simpl. apply existsb_ext_in. intros y Hy. apply IH; [sz|side|side|side].
+    + cbn [handle_union typevar_compatible handle_generic annot_parts target_sub head_sub].
+      apply IH; [sz|side|side|side].
+    + simpl. rewrite IH by (first [sz|side]). destruct o'; reflexivity.
+    + cbn [handle_union typevar_compatible handle_generic annot_parts compare_annotated target_sub].
+      apply IH; [sz|side|side|side].
+    + cbn [handle_union typevar_compatible handle_generic annot_parts compare_annotated target_sub head_sub].
+      rewrite compat_reflexive. cbn [negb]. apply IH; [sz|side|side|side].
+    + cbn [handle_union]. rewrite typevar_compatible_target. eapply TV; eauto.
+Qed.
+
+Theorem compat_iff_sub_partial : forall a b,
+  wf a = true -> wf b = true -> notv a = true -> (compat a b = true <-> sub a b).
+Proof. intros a b Wa Wb Va. rewrite (compat_eq_subb a b Wa Wb Va). apply subb_iff_sub. Qed.
+
+(* the unguarded statement is false: a TypeVar source is accepted whatever its bound *)
+Definition tv_str : ty := TVar (s "T") (Some (TCls CStr)) [].
+Theorem compat_iff_sub_refuted : exists a b, wf a = true /\ wf b = true /\ compat a b = true /\ ~ sub a b.
+Proof.
+  exists tv_str, (TCls CInt). repeat split; try reflexivity.
+  intros H. apply subb_iff_sub in H. vm_compute in H. discriminate.
+Qed.
+
+(* union source = all members *)
+Theorem compat_union_src : forall l b,
+  wf (TUnion l) = true -> wf b = true -> notv (TUnion l) = true ->
+  compat (TUnion l) b = forallb (fun x => compat x b) l.
+Proof.
+  intros l b Wa Wb Va. rewrite (compat_eq_subb _ _ Wa Wb Va), subb_src_union.
+  apply forallb_ext_in. intros x Hx. symmetry. apply compat_eq_subb; side.
+Qed.
+
+(* union target = some member, for a source that is not itself split *)
+Definition splits (a : ty) : bool :=
+  match a with TUnion _ | TAnnot (TUnion _) _ => true | _ => false end.
+
+Theorem compat_union_tgt : forall a l,
+  wf a = true -> wf (TUnion l) = true -> notv a = true -> splits a = false ->
+  compat a (TUnion l) = existsb (fun t => compat a t) l.
+Proof.
+  intros a l Wa Wb Va Sa.
+  rewrite (existsb_ext_in _ (fun t => subb a t)) by (intros t Ht; apply compat_eq_subb; side).
+  rewrite (compat_eq_subb _ _ Wa Wb Va).
+  assert (Ne : l <> []) by apply (proj1 (wf_inv_union _ Wb)).
+  assert (K : forall p, (atomic p = true \/ p = TNoAnn \/ exists u, p = TUnres u) ->
+              subb p (TUnion l) = existsb (fun t => subb p t) l).
+  { intros p [Hp|[->|[u ->]]].
+    - rewrite subb_atomic by (auto; reflexivity). reflexivity.
+    - rewrite subb_noann_l. rewrite (existsb_ext_in _ (fun _ => true)) by (intros; apply subb_noann_l).
+      symmetry. apply existsb_const_true. exact Ne.
+    - rewrite subb_unres_l. rewrite (existsb_ext_in _ (fun _ => true)) by (intros; apply subb_unres_l).
+      symmetry. apply existsb_const_true. exact Ne. }
+  destruct a as [c| | |la|o args|o|p m|e|n bd cs|u]; try discriminate; try (apply K; eauto; left; reflexivity).
+  rewrite subb_src_annot. rewrite (existsb_ext_in _ (fun t => subb p t)) by (intros; apply subb_src_annot).
+  destruct (wf_inv_annot _ _ Wa) as [Lp Wp].
+  destruct p as [c| | |lp|o args|o|p0 m0|e0|n0 bd0 cs0|u]; try discriminate; apply K; eauto; left; reflexivity.
+Qed.
+
+Theorem compat_union_tgt_intro : forall a t l,
+  wf a = true -> wf (TUnion l) = true -> notv a = true -> In t l -> compat a t = true -> compat a (TUnion l) = true.
+Proof.
+  intros a t l Wa Wb Va Ht H. rewrite (compat_eq_subb _ _ Wa Wb Va).
+  apply (subb_union_r a t l Ht). rewrite <- (compat_eq_subb a t Wa) by side. exact H.
+Qed.
